@@ -114,3 +114,89 @@ def _(c):
         ("visited-batches-of-this-queue-are-waited-for",
          "forall(lambda j: implies(0 <= j < $i, exists(lambda k: 0 <= k < len(waiters) and waiters[k] == batches[j].future)))"),
     ])
+
+
+# ------------------------------------------------------------------ MessageAccumulator.fail_undrained (fix be87f86)
+ONLY_RETRIES = ("forall(TP, lambda q: forall(lambda j: implies(q in self._batches and 0 <= j < len(self._batches[q]),"
+                " self._batches[q][j]._retry_count > 0)))")
+
+
+@contract(MOD + ":MessageAccumulator.fail_undrained", ["C07", "C16", "C02"])
+def _(c):
+    """C07 'never writes to a partition before the coordinator acknowledged adding it': once the transaction has an
+    abortable error the partitions awaiting registration are forgotten and nothing mutes them any more; what was never
+    sent is failed here, so that the drain that follows (Sender._sender_routine, hook
+    with-an-abortable-error-nothing-unsent-is-left-to-drain) finds only batches waiting for a retry"""
+    c.self_("MessageAccumulator")
+    c.param("exception", EXC)
+    c.no_class_inv = True
+    c.local("retries", List(MA.BATCH))
+    c.callee_view("MessageBatch.failure", ["all-resolved"])
+    c.call("collections.deque", returns="a0", note="deque(list): the same batches in the same order")
+    c.modifies("self._batches", "Future.state", "Future.nres", "Future.exc")
+    c.raises("a-batch-future-was-cancelled", "CancelledError")
+    c.loop(0, header="for tp in list(self._batches.keys())", invariants=[
+        ("visited-queues-hold-only-retries", "forall(TP, lambda q: forall(lambda j: implies(q in $done and q in self._batches"
+         " and 0 <= j < len(self._batches[q]), self._batches[q][j]._retry_count > 0)))"),
+        ("unvisited-queues-untouched", "forall(TP, lambda q: implies(q not in $done, (q in self._batches) == (q in old(self._batches))"
+         " and implies(q in self._batches, self._batches[q] == old(self._batches)[q])))"),
+        ("no-queue-appears", "forall(TP, lambda q: implies(q in self._batches, q in old(self._batches)))"),
+        ("visited-queues-unsent-batches-resolved", "forall(TP, lambda q: forall(lambda j: implies(q in $done and q in old(self._batches)"
+         " and 0 <= j < len(old(self._batches)[q]) and old(self._batches)[q][j]._retry_count == 0, old(self._batches)[q][j].future.done())))"),
+        ("only-listed-queues-exist", "forall(TP, lambda q: implies(q in old(self._batches), q in $dom))"),
+    ])
+    c.loop(1, header="for batch in batches", invariants=[
+        ("visited-queues-unsent-batches-resolved", "forall(TP, lambda q: forall(lambda j: implies(q in $done_0 and q in old(self._batches)"
+         " and 0 <= j < len(old(self._batches)[q]) and old(self._batches)[q][j]._retry_count == 0, old(self._batches)[q][j].future.done())))"),
+        
+        ("visited-queues-hold-only-retries", "forall(TP, lambda q: forall(lambda j: implies(q in $done_0 and q in self._batches"
+         " and 0 <= j < len(self._batches[q]), self._batches[q][j]._retry_count > 0)))"),
+        ("unvisited-queues-untouched", "forall(TP, lambda q: implies(q not in $done_0, (q in self._batches) == (q in old(self._batches))"
+         " and implies(q in self._batches, self._batches[q] == old(self._batches)[q])))"),
+        ("no-queue-appears", "forall(TP, lambda q: implies(q in self._batches, q in old(self._batches)))"),
+        ("this-queue-not-replaced-yet", "tp in self._batches and batches == self._batches[tp] and batches == old(self._batches)[tp]"),
+        ("retries-are-the-drained-batches-of-this-queue", "forall(lambda k: implies(0 <= k < len(retries), retries[k]._retry_count > 0))"),
+        ("visited-unsent-batches-resolved", "forall(lambda j: implies(0 <= j < $i and batches[j]._retry_count == 0, batches[j].future.done()))"),
+    ])
+    c.ensures("everything-still-queued-waits-for-a-retry", ONLY_RETRIES)
+    c.ensures("what-was-never-sent-is-resolved",
+              "forall(TP, lambda q: forall(lambda j: implies(q in old(self._batches) and 0 <= j < len(old(self._batches)[q])"
+              " and old(self._batches)[q][j]._retry_count == 0, old(self._batches)[q][j].future.done())))")
+    c.replay_fn = lambda model, ob=None: {"script": _UNDRAINED_SCRIPT}
+
+
+# replay: real accumulator: a retried batch (drained once, re-enqueued) and two never-drained batches on two partitions
+_UNDRAINED_SCRIPT = '''
+import asyncio, logging
+logging.disable(logging.CRITICAL)
+from aiokafka.producer.message_accumulator import MessageAccumulator
+from aiokafka.structs import TopicPartition
+
+class Cluster:
+    def leader_for_partition(self, tp):
+        return 1
+
+async def main():
+    bad = []
+    acc = MessageAccumulator(Cluster(), 1 << 16, 0, 1000)
+    t0, t1 = TopicPartition("t", 0), TopicPartition("t", 1)
+    f_retry = await acc.add_message(t0, None, b"retry", 1)
+    nodes, _ = acc.drain_by_nodes(ignore_nodes=set(), muted_partitions={t1})
+    retried = nodes[1][t0]
+    f_new0 = await acc.add_message(t0, None, b"new0", 1)        # a send() while the first batch is in flight: a new batch
+    acc.reenqueue(retried)                                      # the request failed retriably: queue [retry, never-sent]
+    f_new1 = await acc.add_message(t1, None, b"new1", 1)
+    acc.fail_undrained(RuntimeError("abortable"))
+    for f in (f_new0, f_new1):
+        if not (f.done() and isinstance(f.exception(), RuntimeError)):
+            bad.append("a batch that was never sent is still unresolved: %r" % (f,))
+    if f_retry.done():
+        bad.append("a batch waiting for a retry (it may have reached the broker) was failed")
+    left = {tp: [b.retry_count for b in q] for tp, q in acc._batches.items()}
+    if left != {t0: [1]}:
+        bad.append("queues afterwards (retry counts): %r" % (left,))
+    retried.done_noack()
+    return bad
+bad = asyncio.run(main())
+VIOLATED = bool(bad); DETAIL = "; ".join(bad)
+'''
